@@ -16,7 +16,7 @@ EXPLANATION = ("static analysis: complete enumeration of SubMsg constructors and
                "unknown reply ids end in Err, whole-crate scan of Result-swallowing call sites against a frozen table, raw storage scan")
 ASSUMPTIONS = ["CosmWasm VM: a message returning Err, or any of whose non reply_on_error sub-messages fails, is rolled back in full",
                "fault injection at the k-th bank call is a runtime notion and is not performed"]
-TECHNIQUE = "static analysis: effect/reply-mode enumeration by MIR abstract interpretation + swallowed-Result site table"
+TECHNIQUE = "static analysis: effect/reply-mode enumeration by MIR abstract interpretation + swallowed-Result site table, response-structure provenance of tolerated refunds"
 LEVEL_TEXT = ("Enumerates every construct through which an inner failure could turn into a committed partial state (SubMsg reply "
               "modes, reply handlers, swallowed Results, raw storage) over all paths of all entry points; each instance is compared "
               "with a frozen, reasoned table; anything new is a violation.")
